@@ -1,5 +1,7 @@
 use core::mem::ManuallyDrop;
 use std::prelude::v1::*;
+#[cfg(kani)]
+use core::{assert, unreachable};
 
 #[repr(C)]
 #[cfg_attr(feature = "abi_stable", derive(::abi_stable::StableAbi))]
@@ -231,4 +233,9 @@ extern "C" fn cglue_reserve_vec<T>(vec: &mut CVec<T>, size: usize) -> usize {
     let mut vec = TempVec::from(vec);
     vec.reserve(size);
     vec.capacity()
+}
+
+#[cfg(kani)]
+mod verif_kani {
+    include!(concat!(env!("H33P_CGLUE_VERIF_DIR"), "/vec.rs"));
 }
